@@ -17,7 +17,8 @@ RULE = ("case = one history on a fresh chain through BeginBlock/DeliverTx/EndBlo
         "MsgCreateFunToken (coin / erc20, incl. duplicates and nonexistent contracts), MsgConvertCoinToEvm (both births), "
         "precompile sendToBank / sendToEvm / bankMsgSend (direct from an EOA or through a forwarder contract: plain, "
         "revert-at-top, reverting sub-frame, swallowed failure, once-then-reverted; hex / bech32 / unparsable recipient; "
-        "low gas), ERC20 transfer / burn (incl. donations to the module), pairs of ops in ONE transaction (two forwarder calls in "
+        "low gas; plus fixed gas-STIPEND sweeps: the forwarder repeats one conversion with a descending explicit gas stipend, "
+        "steps of 1000 (quick) / 200 (thorough) over 230k..40k), ERC20 transfer / burn (incl. donations to the module), pairs of ops in ONE transaction (two forwarder calls in "
         "one EVM tx, two messages in one Cosmos tx: both or nothing); amounts small, zero, above balance, huge, negative. "
         "Observed after EVERY tx: accepted?, registry, totalSupply, balanceOf(module), bank supply, module escrow per mapping, "
         "actor balances of the touched token/denom. non-trivial = at least two accepted conversions and one of: an accepted "
@@ -35,7 +36,7 @@ ASSUMPTIONS = [
     "transaction gas fees are not modelled: unibi balances of the four gas-paying accounts are not compared, the unibi bank "
     "supply is compared relative to the part of genesis outside the modelled accounts; the CreateFunToken fee (burned) IS modelled",
 ]
-TRUSTED = ["hand-assembled forwarder contract (215 bytes) and returns-false ERC20 (182 bytes), listings in coq/C06/README.md"]
+TRUSTED = ["hand-assembled forwarder contract (262 bytes) and returns-false ERC20 (182 bytes), listings in coq/C06/README.md"]
 HARNESS_TIMEOUT = {"quick": 600, "thorough": 7200}
 
 CONV = ("convert", "send_to_bank", "send_to_evm")
@@ -146,7 +147,7 @@ def _op_of(op, tx_ok, ntok):
             base = "Framed FBadArgs (%s)" % base
         else:
             base = "Framed %s (Framed FBadArgs (SetMeta (DCoin 0%%nat)))" % FRAMES.get(fr, "FBadArgs")
-    if op.get("gas") and not tx_ok:
+    if (op.get("gas") or op.get("call_gas")) and not tx_ok:
         base = "Framed FOog (%s)" % base
     return base
 
@@ -230,6 +231,8 @@ def classify(rec):
             ks.append("malformed:recipient")
         if op.get("gas"):
             ks.append("lowgas:" + ("failed" if not ob["ok"] else "passed"))
+        if op.get("call_gas"):
+            ks.append("gas-stipend-sweep:%s:%s" % (op["k"], "failed" if not ob["ok"] else "passed"))
         if op["k"] in CONV:
             ks.append("to:" + (op.get("fmt") or "hex"))
             m = _mapping_of(ob, op)
